@@ -196,8 +196,13 @@ fn write_variant(rng: &mut Rng) -> Written {
     }
     let mut offs = vec![];
     for j in 0..n_off {
-        let (s, v): (String, f64) = match rng.usize(5) {
+        let (s, v): (String, f64) = match rng.usize(6) {
             0 => ("0".to_string(), 0.0),
+            5 => {
+                features.push("integer_radians");
+                let r = *rng.pick(&[1i64, -1, 2, -2, 3, -3]);
+                (format!("{}", r), r as f64)
+            }
             1 => {
                 features.push("deg_integer");
                 let d = *rng.pick(&[-180i64, -90, 90, 180, 45]);
